@@ -251,7 +251,9 @@ pub fn apply<V: VirtualFileSystem>(v: &V, c: &Value) -> Value {
             let f2 = f1.follow(true);
             let after2 = entry_view(&f2);
             let nf = e.clone().follow(false);
-            json!({"e": before, "f1": after1, "f2": after2, "nf": entry_view(&nf)})
+            // follow(false) after follow(true) does not un-follow (the backends' entries are one-way)
+            let f1nf = e.clone().follow(true).follow(false);
+            json!({"e": before, "f1": after1, "f2": after2, "nf": entry_view(&nf), "f1nf": entry_view(&f1nf)})
         }),
         _ => r_err("harness::unknown-op"),
     })
